@@ -184,11 +184,11 @@ Lemma wstep_err : forall w call e,
   w_g (fst (wstep fixed w call)) = w_g w /\
   (forall o ord sord, call = WCompile o ord sord -> wstep fixed w call = (w, OErr e)).
 Proof.
-  intros w call e H; destruct call; simpl; split; try (intros; discriminate).
+  intros w call e H; destruct call; simpl; unfold w_add_input; split; try (intros; discriminate).
   - rewrite (g_add_node_sticky _ _ _ _ _ _ _ H). reflexivity.
   - destruct (alist_get _ _); reflexivity.
   - reflexivity.
-  - rewrite (g_add_edge_sticky _ _ _ _ _ _ _ H). reflexivity.
+  - destruct (alist_get _ _); reflexivity.
   - destruct (alist_get _ _); reflexivity.
   - unfold w_compile. rewrite H. reflexivity.
   - intros o' ord' sord' E; inv E. unfold w_compile. rewrite H. reflexivity.
@@ -506,13 +506,12 @@ Lemma compiled_wstep : forall w call, g_compiled (w_g w) = true ->
   core (w_g (fst (wstep fixed w call))) = core (w_g w) /\
   g_compiled (w_g (fst (wstep fixed w call))) = true.
 Proof.
-  intros w [] C; simpl.
+  intros w [] C; simpl; unfold w_add_input.
   - pose proof (frozen_add_node (w_g w) k nk need_state false false (or_introl C)) as E.
     destruct (g_add_node (w_g w) k nk need_state false false) as [g' o]; simpl in *; subst g'. auto.
   - destruct (alist_get _ _); simpl; auto.
   - auto.
-  - pose proof (frozen_add_edge (w_g w) from END_ false false fields (or_introl C)) as E.
-    destruct (g_add_edge (w_g w) from END_ false false fields) as [g' o]; simpl in *; subst g'. auto.
+  - destruct (alist_get _ _); simpl; auto.
   - destruct (alist_get _ _); simpl; auto.
   - apply compiled_w_compile; assumption.
 Qed.
